@@ -3,10 +3,11 @@ C11 — NODES responses are validated; honest peers are never banned.
 
 Statements about `acceptNodes` (the two arms of the distance filter of `handle_rpc_response`),
 the packet accounting `nodesAccount`, and the honest responder `sendNodesResponse` of
-`Model/Service.lean`.  WORK IN PROGRESS: statements marked `sorry` await their proofs.
+`Model/Service.lean`.  Helper lemmas: `Proofs/ServiceNodes.lean`.
 -/
 import Discv5Model.Model.Service
 import Discv5Model.Model.KBucketSpec
+import Discv5Model.Proofs.ServiceNodes
 
 namespace Discv5.Props.C11
 open Discv5.KB Discv5.Svc
@@ -86,9 +87,16 @@ theorem enr_request_many_banned (peer : Nat) (recs : List Rec) (h : 1 < recs.len
     (acceptNodes peer [0] recs).2 = true := by
   simp [acceptNodes, h]
 
-/-- Values are filed under the node id they contain (part of C12's table invariant). -/
+/-- Values are filed under the node id they contain — the stored ones **and the pending one** of
+every bucket (part of C12's table invariant `TablePolicy`, which covers both).
+
+The pending clause is necessary: `nodes_by_distances` first applies the pending node of every
+requested bucket, so a pending value filed under a foreign key would be promoted and served; with
+the clause for stored nodes only, `honest_never_banned` is false (see `pending_clause_needed`
+below for the concrete table). -/
 def KeyedById (t : Table Rec) : Prop :=
-  ∀ b ∈ t.buckets, ∀ n ∈ b.nodes, n.value.id = n.key
+  ∀ b ∈ t.buckets, (∀ n ∈ b.nodes, n.value.id = n.key) ∧
+    (∀ p, b.pending = some p → p.node.value.id = p.node.key)
 
 /-- **honest_never_banned.**  A responder that answers as `send_nodes_response` prescribes is never
 banned and nothing it sends is dropped: for every requester id, every list of requested distances
@@ -99,8 +107,8 @@ theorem honest_never_banned (responder : Svc) (requester : Nat) (ds : List Nat)
     (hL : responder.table.localKey = responder.localRec.id)
     (hK : KeyedById responder.table) :
     ∀ p ∈ (Svc.nodesPackets (responder.nodesToSend requester ds).2).1,
-      acceptNodes responder.localRec.id ds p = (p, false) := by
-  sorry
+      acceptNodes responder.localRec.id ds p = (p, false) :=
+  honest_packets_ok responder requester ds hT hL hK
 
 /-- The same, phrased on the messages the responder emits. -/
 theorem honest_never_banned_msgs (responder : Svc) (requester : Nat) (addr : Addr) (rid : Bytes)
@@ -111,7 +119,29 @@ theorem honest_never_banned_msgs (responder : Svc) (requester : Nat) (addr : Add
     ∀ total recs, Out.response requester addr rid (.nodes total recs) ∈
         (responder.sendNodesResponse requester addr rid ds).2 →
       acceptNodes responder.localRec.id ds recs = (recs, false) := by
-  sorry
+  intro total recs hmem
+  rw [sendNodesResponse_out, List.mem_map] at hmem
+  obtain ⟨p, hp, he⟩ := hmem
+  injection he with _ _ _ hb
+  injection hb with _ hrecs
+  rw [← hrecs]
+  exact honest_packets_ok responder requester ds hT hL hK p hp
+
+/-- In words of the property: whatever this node can request — the distances of a query towards
+any `target` (`requestDistances target responder 3`) or an ENR update (`[0]`) — an honest answer is
+kept whole and never bans.  (Instances of `honest_never_banned`, which holds for every list.) -/
+theorem honest_never_banned_generated (responder : Svc) (requester target : Nat)
+    (hT : TInv responder.cfg.kb responder.table)
+    (hL : responder.table.localKey = responder.localRec.id)
+    (hK : KeyedById responder.table) :
+    (∀ p ∈ (Svc.nodesPackets (responder.nodesToSend requester
+        (requestDistances target responder.localRec.id 3)).2).1,
+      acceptNodes responder.localRec.id (requestDistances target responder.localRec.id 3) p
+        = (p, false)) ∧
+    (∀ p ∈ (Svc.nodesPackets (responder.nodesToSend requester [0]).2).1,
+      acceptNodes responder.localRec.id [0] p = (p, false)) :=
+  ⟨honest_never_banned responder requester _ hT hL hK,
+   honest_never_banned responder requester _ hT hL hK⟩
 
 /-- Packets of one request as the accounting sees them: `(total, kept records)`.  Number of
 packets processed until the request completes. -/
@@ -188,17 +218,132 @@ theorem completion_removes (s : Svc) (o : Oracle) (peer : Nat) (addr : Addr) (id
       (if total > 1 then (s.nodesResp.find? (fun p => p.1 == id)).map (·.2) else none)
       (acceptNodes peer (match req.body with | .findNode ds => ds | _ => []) recs).1 = .done all) :
     ∀ a ∈ (s.handleResponse o peer addr id (.nodes total recs)).1.active, a.id ≠ id := by
-  sorry
+  obtain ⟨all, hdone⟩ := hdone
+  have _ := hn
+  have hreqd : (match req.body with | .findNode ds => ds | _ => []) = requestedOf req.body := by
+    cases req.body <;> rfl
+  rw [hreqd] at hdone
+  rcases handleResponse_nodes_active s o peer addr id total recs req hreq with h | ⟨nr, h⟩
+  · rw [h]
+    intro a ha
+    have := (List.mem_filter.1 ha).2
+    simpa using this
+  · rw [h] at hdone
+    cases hdone
 
-/-- Non-vacuity: a `[1,2,0]` request (target adjacent to the responder) accepts the responder's own
-record, and an off-distance record is a ban. -/
+/-! ### Non-vacuity -/
+
+/-- A record with the given node id. -/
 def recOf (id : Nat) : Rec :=
   { id := id, seq := 1, udp4 := none, udp6 := none, udp6Mapped := false, size := 100, passesFilter := true }
 
+/-- A `[1,2,0]` request (target adjacent to the responder) accepts the responder's own record, and
+an off-distance record is a ban. -/
 example : acceptNodes 5 [1, 2, 0] [recOf 5] = ([recOf 5], false) := by decide
 
 example : (acceptNodes 5 [1, 2, 0] [recOf 13]).2 = true := by decide
 
 example : requestDistances 4 5 3 = [1, 2, 0] := by decide
+
+/-- A connected outgoing node filed under its own id. -/
+def exNode (key : Nat) : Node Rec :=
+  { key := key, value := recOf key, st := { conn := true, incoming := false } }
+
+def exCfg : Svc.Cfg := { ipMode := .ip4, maxNodesResponse := 16, kb := kbCfg 10 60 }
+
+/-- Responder with id 8 knowing the nodes 9 (distance 1, bucket 0) and 12 (distance 3, bucket 2). -/
+def exTable : Table Rec :=
+  ((Table.init 8).setBucket 0 { nodes := [exNode 9], fcp := some 0 }).setBucket 2
+    { nodes := [exNode 12], fcp := some 0 }
+
+def exResponder : Svc := { cfg := exCfg, localRec := recOf 8, table := exTable }
+
+theorem exBucket_binv (c : KB.Cfg Rec) (tick key : Nat) :
+    BInv c tick { nodes := [exNode key], fcp := some 0 } :=
+  { len := by simp
+    split := ⟨[], [exNode key], rfl, by simp, by simp [exNode], by simp, by simp, by simp⟩
+    keysNodup := by simp
+    pendingFresh := by simp
+    incoming := by simp [exNode]
+    stampsLe := by simp [exNode] }
+
+theorem exTable_tinv (c : KB.Cfg Rec) : TInv c exTable := by
+  unfold exTable
+  refine TInv.setBucket (TInv.setBucket (init_tinv c 8) (exBucket_binv c _ 9) ?_)
+    (exBucket_binv c _ 12) ?_
+  · refine ⟨?_, by simp⟩
+    simp only [List.mem_singleton, forall_eq]
+    show bucketIndex 8 9 = some 0
+    decide
+  · refine ⟨?_, by simp⟩
+    simp only [List.mem_singleton, forall_eq]
+    show bucketIndex 8 12 = some 2
+    decide
+
+theorem exBucket_keyed (key : Nat) :
+    BAll (fun k (v : Rec) => v.id = k) ({ nodes := [exNode key], fcp := some 0 } : Bucket Rec) := by
+  refine ⟨?_, by simp⟩
+  simp only [List.mem_singleton, forall_eq]
+  rfl
+
+theorem exTable_keyed : KeyedById exTable :=
+  TAll.setBucket (TAll.setBucket (tall_init _ 8) (exBucket_keyed 9)) (exBucket_keyed 12)
+
+/-- The hypotheses of `honest_never_banned` are satisfiable by a non-empty table. -/
+example : ∀ p ∈ (Svc.nodesPackets (exResponder.nodesToSend 77 [2, 3, 1]).2).1,
+    acceptNodes 8 [2, 3, 1] p = (p, false) :=
+  honest_never_banned exResponder 77 [2, 3, 1] (exTable_tinv _) rfl exTable_keyed
+
+/-- A query towards target 10 asks the responder 8 (distance 2) for `[d, d+1, d-1] = [2,3,1]`;
+the honest answer carries both nodes in one packet, which is accepted without ban. -/
+example : requestDistances 10 8 3 = [2, 3, 1] := by decide
+
+example : Svc.nodesPackets (exResponder.nodesToSend 77 [2, 3, 1]).2 = ([[recOf 9, recOf 12]], 1) := by
+  decide
+
+example : acceptNodes 8 [2, 3, 1] [recOf 9, recOf 12] = ([recOf 9, recOf 12], false) := by decide
+
+/-- A query towards the adjacent target 9 asks for `[1,2,0]`: the answer starts with the
+responder's own record (distance 0), followed by node 9; accepted without ban.  The requester
+itself (12 here, for `[2,3,1]`) is left out by the responder. -/
+example : requestDistances 9 8 3 = [1, 2, 0] := by decide
+
+example : Svc.nodesPackets (exResponder.nodesToSend 77 [1, 2, 0]).2 = ([[recOf 8, recOf 9]], 1) := by
+  decide
+
+example : acceptNodes 8 [1, 2, 0] [recOf 8, recOf 9] = ([recOf 8, recOf 9], false) := by decide
+
+example : (exResponder.nodesToSend 12 [2, 3, 1]).2 = [recOf 9] := by decide
+
+/-- An ENR request `[0]` is answered with exactly the own record; a second record would ban. -/
+example : Svc.nodesPackets (exResponder.nodesToSend 77 [0]).2 = ([[recOf 8]], 1) := by decide
+
+example : (acceptNodes 8 [0] [recOf 8, recOf 8]).2 = true := by decide
+
+/-- Why `KeyedById` must cover the pending slot: bucket 0 of responder 8 holds no stored node but a
+pending node with key 9 whose *value* carries id 3, and its timeout has elapsed.  All stored values
+are (vacuously) filed under their ids, yet `nodes_by_distances [1]` promotes and serves the record
+with id 3, whose distance from 8 is 4 — the requester bans. -/
+def cexTable : Table Rec :=
+  (Table.init 8).setBucket 0
+    { nodes := [], fcp := none, pending := some ⟨{ key := 9, value := (recOf 3), st := ⟨true, false⟩ }, 0⟩ }
+
+def cexResponder : Svc := { cfg := exCfg, localRec := recOf 8, table := cexTable, now := 100 }
+
+theorem pending_clause_needed :
+    (∀ b ∈ cexTable.buckets, ∀ n ∈ b.nodes, n.value.id = n.key) ∧
+    (Svc.nodesPackets (cexResponder.nodesToSend 77 [1]).2).1 = [[recOf 3]] ∧
+    (acceptNodes 8 [1] [recOf 3]).2 = true := by
+  refine ⟨?_, by decide, by decide⟩
+  intro b hb n hn
+  have hb' : b ∈ (List.replicate numBuckets ({} : Bucket Rec)).set 0
+      { nodes := [], fcp := none,
+        pending := some ⟨{ key := 9, value := (recOf 3), st := ⟨true, false⟩ }, 0⟩ } := hb
+  have hnodes : b.nodes = [] := by
+    rcases List.mem_or_eq_of_mem_set hb' with h | h
+    · rw [List.eq_of_mem_replicate h]
+    · rw [h]
+  rw [hnodes] at hn
+  cases hn
 
 end Discv5.Props.C11
